@@ -93,6 +93,37 @@ func genC17pure(r *RNG, tier string) []Case {
 			cs = append(cs, isValidCase(base, "random"))
 		}
 	}
+	// the gate looks at the buffer length and the length field ONLY: well-formed buffers (length field = length) whose
+	// OTHER header fields are at the ends of their domains - timestamp, type code, server id, next_position (0: an
+	// artificial event; 1..3: a file grown past 4 GiB, the 32-bit field wrapped; 2^32-1), flags - must be accepted
+	for _, l := range []int{19, 20, 23, 27, 64, 300} {
+		for field := 0; field < 6; field++ {
+			for _, v := range []uint32{0, 1, 2, 3, 4, 18, 19, 0x7f, 0x80, 0xff, 0x100, 0xffff, 0x10000, 0x7fffffff, 0x80000000, 0xfffffffe, 0xffffffff} {
+				b := r.Bytes(l)
+				putLen(b, uint32(l))
+				switch field {
+				case 0: // timestamp
+					b[0], b[1], b[2], b[3] = byte(v), byte(v>>8), byte(v>>16), byte(v>>24)
+				case 1: // type code
+					b[4] = byte(v)
+				case 2: // server id
+					b[5], b[6], b[7], b[8] = byte(v), byte(v>>8), byte(v>>16), byte(v>>24)
+				case 3: // next_position
+					b[13], b[14], b[15], b[16] = byte(v), byte(v>>8), byte(v>>16), byte(v>>24)
+				case 4: // flags
+					b[17], b[18] = byte(v), byte(v>>8)
+				case 5: // everything but the length zero
+					for k := range b {
+						if k < 9 || k > 12 {
+							b[k] = 0
+						}
+					}
+				}
+				cs = append(cs, isValidCase(b, "well-formed-field-boundaries"))
+				cs = append(cs, hdrCase(b, "accessors"))
+			}
+		}
+	}
 	// longer buffers
 	for i := 0; i < 200*n; i++ {
 		l := 19 + r.Intn(5000)
